@@ -211,6 +211,9 @@ func (r *renderer) typeSpec(t *TypeDecl, prefix string) {
 	case t.AliasOf != nil:
 		t.Start = r.emit("%s%s = %s%s%s", prefix, t.Name, r.ref(t.AliasOf), r.trail(&t.Node), tag(t.ID))
 		t.End = t.Start
+	case t.DefOf != nil:
+		t.Start = r.emit("%s%s %s%s%s", prefix, t.Name, t.DefOf.Name, r.trail(&t.Node), tag(t.ID))
+		t.End = t.Start
 	case t.Kind == KStruct:
 		if len(t.Fields) == 0 {
 			t.Start = r.emit("%s%s struct{}%s%s", prefix, t.Name, r.trail(&t.Node), tag(t.ID))
@@ -741,6 +744,8 @@ func (r *renderer) siteText(s *Site) (string, []string) {
 		} else {
 			text = call
 		}
+	case "mcall.chain":
+		text = lhs(fmt.Sprintf("%s.%s().%s()", o, s.Fn.Name, s.Fn2.Name))
 	case "mvalue":
 		text = lhs(fmt.Sprintf("%s.%s", o, s.Fn.Name))
 	case "mexpr":
